@@ -251,6 +251,35 @@ func rebuildCase(r *rng.R, opt genOpt, ndocs int) sexp.Node {
 		sexp.T("rebuilt", rebuilt), sexp.T("docs", docs...))
 }
 
+// cloneCase: Clone() of a definition, as pointer graphs, with the sharing walk and the
+// mutation-isolation test.
+func cloneCase(r *rng.R, opt genOpt) sexp.Node {
+	gs := genSchema(r, opt)
+	fs := features(r)
+	def, _ := mustSchema(gs)
+	ids := &idTable{ids: map[uintptr]int{}}
+	g0 := gabs(ids, def)
+	clone := def.Clone()
+	g1 := gabs(ids, clone)
+	shared := sharedStructure(def, clone)
+	cloneNew := "ok"
+	var data interface{}
+	nerr := 0
+	if s2, err := schema.New(clone); err != nil {
+		cloneNew = "rejected"
+	} else {
+		data, nerr = introspectJSON(s2, fs)
+	}
+	fillE2E(gs, data)
+	mutateEverything(clone)
+	g0after := gabs(ids, def)
+	return sexp.T("case", sexp.Sym("clone"),
+		sexp.T("schema", gs.sexp()), sexp.T("features", names(fs)),
+		sexp.T("orig", g0), sexp.T("clone", g1), sexp.T("orig-after", g0after),
+		sexp.T("shared", sharedSexp(shared)), sexp.T("clone-new", sexp.Sym(cloneNew)),
+		sexp.T("data", jsonSexp(data)), sexp.T("errors", sexp.Int(nerr)))
+}
+
 func main() {
 	hx.Main(func(h *hx.H) {
 		n := 1500
@@ -269,6 +298,16 @@ func main() {
 				// query sees to the end, defaults the lexer can read back); every 7th goes beyond
 				// the query depth, every 11th has astral / U+FFFD strings, every 6th ill-typed defaults
 				return introCase(r, genOpt{Size: 1 + i%3, Hostile: i%6 == 5, NoBeyond: i%7 != 3, Plain: i%11 != 4})
+			})
+		}
+		nc := 300
+		if h.Thorough() {
+			nc = 6000
+		}
+		for i := 0; i < nc; i++ {
+			i := i
+			h.Case(func(r *rng.R) sexp.Node {
+				return cloneCase(r, genOpt{Size: i % 4, NoBeyond: i%9 != 5, Plain: true})
 			})
 		}
 		nr := 400
